@@ -70,11 +70,18 @@ func (s *streamWriter) Invoke(msgs []actor.Envelope) {
 
 	for i := 0; i < len(msgs); i++ {
 		var (
-			stream   = msgs[i].Msg.(*streamDeliver)
 			typeID   int32
 			senderID int32
 			targetID int32
 		)
+		// Only the router hands deliveries to a stream writer. Anything else got
+		// here by PID, e.g. a message that a peer addressed to "stream/<addr>":
+		// drop it, a failed type assertion would take the whole node down.
+		stream, ok := msgs[i].Msg.(*streamDeliver)
+		if !ok {
+			slog.Error("stream writer", "err", "not a delivery", "type", fmt.Sprintf("%T", msgs[i].Msg))
+			continue
+		}
 		// Only protobuf messages can go over the wire, drop anything else
 		// instead of panicking in the serializer.
 		if _, ok := stream.msg.(proto.Message); !ok {
